@@ -2,3 +2,8 @@
 #![allow(dead_code, unused_imports)]
 use super::*;
 
+
+/// (message_id, proposed?, pending?, confirmed id or 0, timeout)
+pub fn dump(r: &RotationState) -> (u64, bool, bool, u64, bool) {
+    (r.message_id, r.proposed.is_some(), r.pending.is_some(), r.confirmed.as_ref().map(|c| c.1).unwrap_or(0), r.timeout)
+}
